@@ -348,10 +348,11 @@ func (client *client) writeLoop() {
 			switch p := packet.(type) {
 			case *packets.Publish:
 				if client.version == packets.Version5 {
-					// A new alias adds the Topic Alias property (3 bytes, and possibly one more byte of property
-					// length) to a packet whose size has already been checked against the client's Maximum
-					// Packet Size when it was read from the queue: leave such a packet alone.
-					fits := client.opts.ClientMaxPacketSize == 0 || uint64(gmqtt.MessageFromPublish(p).TotalBytes(packets.Version5))+4 <= uint64(client.opts.ClientMaxPacketSize)
+					// A new alias adds the Topic Alias property (3 bytes, possibly one more byte of property
+					// length and one more byte of remaining length) to a packet whose size has already been
+					// checked against the client's Maximum Packet Size when it was read from the queue: leave
+					// such a packet alone.
+					fits := client.opts.ClientMaxPacketSize == 0 || uint64(gmqtt.MessageFromPublish(p).TotalBytes(packets.Version5))+5 <= uint64(client.opts.ClientMaxPacketSize)
 					if client.opts.ClientTopicAliasMax > 0 && fits {
 						// use alias if exist
 						if alias, ok := client.topicAliasManager.Check(p); ok {
